@@ -1273,7 +1273,7 @@ func runC13(cfg Config, r *Result) {
 			}
 		}
 	}
-	n := cfg.N(1500, 40000)
+	n := cfg.N(1500, 20000)
 	for i := 0; i < n; i++ {
 		if i%25 == 24 {
 			c13Check(genIllTyped(cfg.Rng), model, r)
